@@ -432,3 +432,111 @@ def check_all_writers(R, rule, P):
             R.check(not why, rule, "writer:%s:%s" % (unit.crate, key), "every write's result is examined or returned: a buffer failure inside the writer reaches the handler as its error", "; ".join(why[:3]), where=b.span)
     R.floor(rule, "ResponseData writers", n_w, 45)
 
+
+
+# ---- ResponseUnit states by history ----------------------------------------------------------------------------------
+# The unit's bookkeeping (has a header been written? has a datum been written?) is private state whose representation is
+# the library's business (two bools, an enum, a counter, ...). Rules obtain the four states from the library itself -
+# a unit as Formatter::response_unit opens it, then header(..) and/or data(..) applied to it - and describe a final
+# state by what the next header/data call writes, never by field names.
+RU = "scpi::parser::response::ResponseUnit"
+_UNIT_STATES = {}
+
+
+def unit_layout(u):
+    """field indices of ResponseUnit by role: (index of the formatter reference, index of the latched result, state indices)"""
+    adt = u.adts.get(RU)
+    if adt is None:
+        raise facts.AnchorLost("struct ResponseUnit")
+    fl = adt["variants"][0]["fields"]
+    fmt = [i for i, f in enumerate(fl) if "Formatter" in f["ty"] and f["ty"].lstrip().startswith("&")]
+    res = [i for i, f in enumerate(fl) if f["ty"].replace(" ", "").startswith("core::result::Result<(),")]
+    if len(fmt) != 1 or len(res) != 1:
+        raise facts.AnchorLost("ResponseUnit: one formatter reference and one latched Result<()> (fields %s)" % [(f["name"], f["ty"]) for f in fl])
+    return fmt[0], res[0], [i for i in range(len(fl)) if i not in (fmt[0], res[0])]
+
+
+def _unit_writes(r):
+    return tuple(e.name.split("::")[-1] + (":%s" % (e.args[1][1],) if e.name.endswith("push_byte") and len(e.args) > 1 and e.args[1][0] == "K" else "")
+                 for e in r.trace if e.kind == "call" and ("Formatter::" in e.name or "format_response_data" in e.name))
+
+
+def _unit_final(r, ucell_name="unit"):
+    rv = r.retval
+    final = load(Loc(rv.cell, rv.path)) if isinstance(rv, RefV) else None
+    return final if isinstance(final, AggV) else None
+
+
+def mk_unit(u, state, result=None, fmt=None):
+    """a ResponseUnit value in the given state (a dict index -> value as returned by unit_states), with the given latched
+    result (default Ok(())) and formatter reference (default: an opaque formatter)"""
+    import copy
+    fi, ri, si = unit_layout(u)
+    vals = {i: copy.deepcopy(v) for i, v in state.items()}
+    vals[fi] = fmt if fmt is not None else RefV(Cell(TOP, "fmt"), (), True)
+    vals[ri] = result if result is not None else fdai.mk_ok(fdai.UNIT)
+    return AggV(RU, vals)
+
+
+def unit_states(P=None):
+    """{(has_header, has_data): {state field index: value}} as the library leaves them after the histories
+    open / open,header / open,data / open,header,data (each step succeeding)"""
+    P = P or D.prog()
+    key = id(P)
+    if key in _UNIT_STATES:
+        return _UNIT_STATES[key]
+    u = P.unit("scpi")
+    fi, ri, si = unit_layout(u)
+    eng = fdai.Engine(P, u, inline=lambda n, r: False, models={})
+    opener = u.trait_method(FORMATTER, "response_unit", "arrayvec::ArrayVec")
+    fresh = None
+    for r in eng.run(opener, [RefV(Cell(TOP, "buf"), (), True)]):
+        v = r.retval.fields.get(0) if isinstance(r.retval, EnumV) and r.retval.name == "Ok" else None
+        if isinstance(v, AggV) and isinstance(v.fields.get(ri), EnumV) and v.fields[ri].name == "Ok":
+            st = {i: v.fields.get(i) for i in si}
+            if fresh is not None and snapshot(AggV("s", fresh)) != snapshot(AggV("s", st)):
+                raise facts.AnchorLost("Formatter::response_unit opens units in different states")
+            fresh = st
+    if fresh is None or any(not isinstance(x, (K, EnumV)) for x in fresh.values()):
+        raise facts.AnchorLost("Formatter::response_unit does not open a unit in a definite state (%s)" % fresh)
+
+    def step(state, meth):
+        b = u.body(RU + "::" + meth)
+        ucell = Cell(mk_unit(u, state), "unit")
+        outs = []
+        for r in eng.run(b, [RefV(ucell, (), True), SymV("payload", "payload")]):
+            final = _unit_final(r)
+            if r.outcome == "return" and final is not None and not (isinstance(final.fields.get(ri), EnumV) and final.fields[ri].name == "Err"):
+                outs.append({i: final.fields.get(i) for i in si})
+        snaps = {repr(snapshot(AggV("s", o))) for o in outs}
+        if len(snaps) != 1 or any(not isinstance(x, (K, EnumV)) for x in outs[0].values()):
+            raise facts.AnchorLost("ResponseUnit::%s does not leave a definite state after a successful call (%s)" % (meth, sorted(snaps)[:3]))
+        return outs[0]
+    hdr = step(fresh, "header")
+    states = {(False, False): fresh, (True, False): hdr, (False, True): step(fresh, "data"), (True, True): step(hdr, "data")}
+    _UNIT_STATES[key] = states
+    return states
+
+
+def unit_spec_writes(meth, hh, hd):
+    """what ResponseUnit::header / ::data write in the state (has_header, has_data) - IEEE 488.2 8.4/8.7: `:` between header
+    mnemonics, one header separator before the first datum, `,` between data"""
+    if meth == "data":
+        return (("data_separator",) if hd else ("header_separator",) if hh else ()) + ("format_response_data",)
+    return (("push_byte:58",) if hh else ()) + ("push_str",)
+
+
+def unit_behaves_like(P, state, hh, hd):
+    """does a unit in `state` (state field index -> value) write what a unit with (has_header, has_data) = (hh, hd) writes
+    on its next data(..) and (when no datum was written yet) its next header(..)?"""
+    u = P.unit("scpi")
+    eng = fdai.Engine(P, u, inline=lambda n, r: False, models={})
+    for meth in (("data", "header") if not hd else ("data",)):
+        b = u.body(RU + "::" + meth)
+        ucell = Cell(mk_unit(u, state), "unit")
+        res = eng.run(b, [RefV(ucell, (), True), SymV("payload", "payload")])
+        seqs = {_unit_writes(r) for r in res}
+        exp = unit_spec_writes(meth, hh, hd)
+        if not seqs or max(seqs, key=len) != exp or not all(s == exp[: len(s)] for s in seqs):
+            return False
+    return True
